@@ -22,10 +22,8 @@ def guard_facts(chain):
             continue
         e, pol = strip_not(g.test, g.pol)
         parts = [e]
-        if isinstance(e, ast.BoolOp) and isinstance(e.op, ast.Or) and pol:
-            parts = list(e.values)
-        elif isinstance(e, ast.BoolOp) and isinstance(e.op, ast.And) and pol:
-            parts = list(e.values)
+        if isinstance(e, ast.BoolOp):
+            parts = list(e.values)         # not (A and B) is (not A) or (not B): each part with the polarity of the whole
         for q in parts:
             q, qpol = strip_not(q, pol)
             txt = ast.unparse(q)
@@ -43,6 +41,8 @@ def guard_facts(chain):
                 marks.add('incompat')
             elif 'type(' in txt and 'not in' in txt and qpol:
                 marks.add('incompat')
+            elif 'type(' in txt and ' in ' in txt and 'not in' not in txt and not qpol:
+                marks.add('incompat')            # `type(x) in NUMERIC` is false
             elif qpol and ('datetime' in txt or 'date_cols' in txt or 'is_date' in txt):
                 marks.add('date')
     return lits, marks
